@@ -32,19 +32,19 @@ def _rule_compact_support(verdict, scn):
     return d.get("family") in ("pulse", "band") and int(d.get("solver_steps") or 0) >= 1
 
 
-def _rule_backward_conditioning(verdict, scn):
-    """F error over the bound on intervals that run BACKWARDS in time over a large strain:
-    un-straining is a strongly contracting map, the solver's absolute tolerance is set from
-    the (large) starting F, and the error relative to the (small) result exceeds the bound.
-    Matched only for a reversed call of strain > 3 (per_call / bulk / det) or a history
-    containing reversed calls with accumulated strain > 6 (cumulative / split_vs_whole), and
-    only when the solver ran; reversed calls of small strain are judged in full."""
+def _rule_contracting_map(verdict, scn):
+    """F error over the RELATIVE bound where PyDRex's absolute solver tolerance alone explains
+    it: the flow map of the interval amplifies an absolute error of 1e-4 (the atol PyDRex hands
+    LSODA) to at least a tenth of the bound relative to max|F_exact| -- un-straining on
+    intervals running backwards in time, round trips, strongly compressing flows.  Only when
+    the solver ran."""
     d = verdict.get("detail") or {}
     if int(d.get("solver_steps") or 0) < 1:
         return False
-    if verdict["clause"] in ("per_call", "bulk", "det"):
-        return bool(d.get("reversed_interval")) and float(d.get("strain") or 0.0) > 3.0
-    return bool(d.get("reversed_interval_in_history")) and float(d.get("strain") or 0.0) > 6.0
+    if verdict["property"] == "C07" and "F does not follow" not in str(d.get("what")):
+        return False
+    e = d.get("atol_estimate_over_bound")
+    return e is not None and float(e) >= 0.03
 
 
 def _rule_large_rotation(verdict, scn):
@@ -60,7 +60,7 @@ def _rule_large_rotation(verdict, scn):
 
 RULES = {
     "large_rigid_rotation": _rule_large_rotation,
-    "backward_conditioning": _rule_backward_conditioning,
+    "contracting_map": _rule_contracting_map,
     "compact_support_stepped_over": _rule_compact_support,
     "matrix_diffusion_strain": _rule_matrix_diffusion,
 }
